@@ -240,6 +240,7 @@ Example O02_inv_guard_sites :
   "goose.Ctx.funcDecl | unsupported | ""function named _""";
   "goose.Ctx.funcDecl | nope | ""function with multiple receivers""";
   "goose.Ctx.funcDecl | unsupported | ""unexpected function receiver type: %s""";
+  "goose.Ctx.funcDecl | unsupported | ""parameter with the name of its function""";
   "goose.Ctx.constSpec | unsupported | ""multiple declarations in one spec (split them up)""";
   "goose.Ctx.constSpec | unsupported | ""constant or variable named _""";
   "goose.Ctx.constSpec | unsupported | ""const with no value""";
